@@ -892,6 +892,12 @@ func (v Value) toReflectValue(typ reflect.Type) (reflect.Value, error) {
 		case valueEmpty, valueResult, valueReference:
 			// These are invalid, and should panic
 		default:
+			if v.value == nil {
+				// undefined / null: the zero value of the target (a nil interface);
+				// reflect.ValueOf(nil) is the invalid Value, which deletes a map
+				// entry in SetMapIndex and panics in Set.
+				return reflect.Zero(typ), nil
+			}
 			return reflect.ValueOf(v.value), nil
 		}
 	}
